@@ -262,6 +262,12 @@ func manageCanaryPodFailures(pods []*v1.Pod, params *Parameters, result *Result,
 		}
 	}
 
+	// Unpausing is a manual action: it also takes precedence when no canary pod could be evaluated yet
+	if result.IsUnpaused && !result.IsFailed {
+		result.IsPaused = false
+		result.PausedReason = ""
+	}
+
 	// Update Failed and Paused condition
 	conditions.UpdateExtendedDaemonSetReplicaSetStatusCondition(result.NewStatus, metav1.NewTime(now), v1alpha1.ConditionTypeCanaryFailed, conditions.BoolToCondition(result.IsFailed), string(result.FailedReason), "", false, true)
 	conditions.UpdateExtendedDaemonSetReplicaSetStatusCondition(result.NewStatus, metav1.NewTime(now), v1alpha1.ConditionTypeCanaryPaused, conditions.BoolToCondition(result.IsPaused), string(result.PausedReason), "", false, true)
